@@ -58,3 +58,5 @@ Definition trav_pwf (c : trav_case) : bool := let '(g, _, _, _) := c in pwf_b g.
 Definition trav_cls (c : trav_case) : bool := let '(g, _, _, _) := c in cls_all_b g.
 (* the hypotheses of C02_exit_means_done_any_workers hold of the exported graph *)
 Definition trav_ewf (c : trav_case) : bool := let '(g, _, _, _) := c in ewf_b g.
+(* the hypothesis of C01_named_sources_hold_the_states holds of the exported graph *)
+Definition trav_fw (c : trav_case) : bool := let '(g, _, _, _) := c in fw_ok_b g.
